@@ -188,6 +188,13 @@ class Session:
             self.ended_by = "cut"
             self.outcomes.append(["CUT"])
             return False
+        if kind == "cut_control":
+            # only the control connection goes (the data connections of the peer stay open, unread)
+            p.cut(st[1] if len(st) > 1 else "rst", data=False)
+            self.alive = False
+            self.ended_by = "cut"
+            self.outcomes.append(["CUT"])
+            return False
         if kind == "sendcut":
             # back-to-back: the command and the disappearance in one burst
             p.send(st[1])
